@@ -438,7 +438,9 @@ class Exec:
 
     def e_Yield(self, e, env):
         v = self.ev(e.value, env) if e.value is not None else None
-        self.events.append(('yield', v))
+        # the attributes stored on the yielded object so far (what the consumer sees at this point)
+        snap = {k.args[1]: x for k, x in self.heap.items() if isinstance(k, T) and k.op == 'attr' and k.args[0] == v}
+        self.events.append(('yield', v, snap))
         return None
 
     def e_NamedExpr(self, e, env):
